@@ -114,6 +114,8 @@ Definition lpair (kv : string * string) : lstr * lstr := (lstr_of (fst kv), lstr
 Inductive case :=
   | CClassic (file : nat) (junk cont : bool) (args : option (list (string * string))) (o : obs)
   | CYaml (rec : crop_rec float) (junk cont : bool) (args : option (list (string * string))) (o : obs)
+  | CClassicTo (file : nat) (fname target : string) (junk cont : bool) (args : list (string * string)) (o : obs)
+  | CYamlTo (rec : crop_rec float) (fname target : string) (junk cont : bool) (args : list (string * string)) (o : obs)
   | CConvert (file : nat) (o : obs)
   | CEdit (file : nat) (name : string) (i j : nat) (text : string) (edited : nat).
 
@@ -125,6 +127,16 @@ Definition with_override (cont : bool) (args : option (list (string * string))) 
                       | None => None
                       end
   | _, _ => s
+  end.
+
+Definition with_override_to (cont : bool) (fname target : string) (args : list (string * string))
+    (s : option (crop_state float)) : option (crop_state float) :=
+  match s with
+  | Some s => match parse_overrides (map lpair args) with
+              | Some o => Some (apply_to cont (lstr_of target) o (lstr_of fname) s)
+              | None => None
+              end
+  | None => None
   end.
 
 Definition cmp (m : option (list float * list Z)) (o : obs) : list Z :=
@@ -144,6 +156,10 @@ Definition case_diff (files : list (list lstr)) (c : case) : list Z :=
       cmp (option_map flat_state (with_override cont args (state_of_classic cont (nth f files []) (prior junk)))) o
   | CYaml r junk cont args o =>
       cmp (option_map flat_state (with_override cont args (state_of_yaml cont r (prior junk)))) o
+  | CClassicTo f fname target junk cont args o =>
+      cmp (option_map flat_state (with_override_to cont fname target args (state_of_classic cont (nth f files []) (prior junk)))) o
+  | CYamlTo r fname target junk cont args o =>
+      cmp (option_map flat_state (with_override_to cont fname target args (state_of_yaml cont r (prior junk)))) o
   | CConvert f o => cmp (option_map flat_rec (convert (nth f files []))) o
   | CEdit f name i j text e =>
       match pname_of (lstr_of name) with
